@@ -26,6 +26,13 @@ ASSUMPTIONS = ["contracts of WCSHelper.sky2pix_ellipse and "
                "fitting.elliptical_gaussian (units.py)"]
 
 MUTANTS = [
+    ("model centre shifted by two pixels on the first axis",
+     "AegeanTools/AeRes.py", "src.peak_flux, xo-1, yo-1,",
+     "src.peak_flux, xo+1, yo-1,", "C14-R13"),
+    ("debug block converts the widths in place", "AegeanTools/AeRes.py",
+     "        if logging.getLogger().isEnabledFor(logging.DEBUG):  # pragma: no cover\n",
+     "        if logging.getLogger().isEnabledFor(logging.DEBUG):  # pragma: no cover\n"
+     "            sx, sy = sx*FWHM2CC, sy*FWHM2CC\n", "C14-R12"),
     ("frac = 0 falls back to the sigma threshold", "AegeanTools/AeRes.py",
      "            if frac is not None:", "            if frac:", "C14-R5"),
     ("axes sorted into (major, minor) without rotating the angle",
@@ -102,10 +109,97 @@ TWINS = [
 ]
 
 
+def r13_centre(ctx, prog, rule="C14-R13"):
+    """the model is centred on the catalogue position: sky2pix_ellipse gives
+    1-based (FITS) pixel coordinates, the evaluation grid (np.mgrid) is
+    0-based, so the centre handed to the Gaussian is position - 1 on both
+    axes -- any other shift moves every model by a pixel"""
+    from ..core import expand_locals
+    ctx.rule(rule, "model centre = catalogue position: the centre arguments "
+             "of elliptical_gaussian in make_model are (xo - 1, yo - 1) with "
+             "xo, yo the first two values of sky2pix_ellipse (1-based) and "
+             "the grid from np.mgrid (0-based)")
+    mm = prog.func("AeRes.make_model")
+    calls = [c for c in walk_no_nested(mm.node) if isinstance(c, ast.Call)
+             and norm(c.func).split(".")[-1] == "elliptical_gaussian"]
+    if len(calls) != 1 or len(calls[0].args) < 5:
+        raise AnalysisError("%s: elliptical_gaussian call of make_model" %
+                            rule)
+    unpack = [st for st in walk_no_nested(mm.node)
+              if isinstance(st, ast.Assign) and
+              isinstance(st.targets[0], ast.Tuple) and
+              isinstance(st.value, ast.Call) and
+              norm(st.value.func).split(".")[-1] == "sky2pix_ellipse"]
+    if len(unpack) != 1:
+        raise AnalysisError("%s: sky2pix_ellipse unpacking" % rule)
+    names = [norm(e) for e in unpack[0].targets[0].elts[:2]]
+    for k, nm in ((3, names[0]), (4, names[1])):
+        a = expand_locals(mm.node, calls[0].args[k])
+        ok = isinstance(a, ast.BinOp) and isinstance(a.op, ast.Sub) and \
+            norm(a.left) == nm and isinstance(a.right, ast.Constant) and \
+            a.right.value == 1
+        ctx.check(rule, mm, "centre argument %d = %s" % (k + 1, norm(a)),
+                  ok, "expected %s - 1 (1-based position on a 0-based "
+                  "grid); found %s: the model is shifted against the "
+                  "catalogue position" % (nm, norm(a)), node=calls[0])
+
+
+def r12_diagnostics(ctx, prog, rule="C14-R12"):
+    """the model does not depend on the logging level"""
+    ctx.rule(rule, "the model is the same at every verbosity: a block that "
+             "runs only when a log level is enabled (isEnabledFor / "
+             "getEffectiveLevel tests) binds no name that is read after the "
+             "block")
+    n = 0
+    for short in ("AeRes.make_model", "AeRes.make_residual",
+                  "AeRes.load_sources"):
+        if not prog.has_func(short):
+            continue
+        fi = prog.func(short)
+        for st in walk_no_nested(fi.node):
+            if not (isinstance(st, ast.If) and any(
+                    isinstance(c, ast.Call) and
+                    norm(c.func).split(".")[-1] in ("isEnabledFor",
+                                                    "getEffectiveLevel")
+                    for c in ast.walk(st.test))):
+                continue
+            n += 1
+            bound = set()
+            for b in st.body + st.orelse:
+                for x in ast.walk(b):
+                    if isinstance(x, ast.Name) and \
+                            isinstance(x.ctx, ast.Store):
+                        bound.add(x.id)
+            end = getattr(st, "end_lineno", st.lineno)
+            later = {x.id for x in ast.walk(fi.node)
+                     if isinstance(x, ast.Name) and
+                     isinstance(x.ctx, ast.Load) and x.lineno > end}
+            # a loop body runs again: names read earlier in the enclosing
+            # loop count as well
+            loops = [l for l in ast.walk(fi.node)
+                     if isinstance(l, (ast.For, ast.While)) and
+                     any(y is st for y in ast.walk(l))]
+            for l in loops:
+                later |= {x.id for x in ast.walk(l)
+                          if isinstance(x, ast.Name) and
+                          isinstance(x.ctx, ast.Load) and not any(
+                              x is y for y in ast.walk(st))}
+            leak = sorted(bound & later)
+            ctx.check(rule, fi, "diagnostic block at line %d binds nothing "
+                      "that is used later" % st.lineno, not leak,
+                      "the block under `%s` rebinds %s, which the "
+                      "computation uses afterwards: the result differs when "
+                      "debug logging is switched on" %
+                      (norm(st.test, 50), leak), node=st)
+    ctx.floor(rule, n, 1, "log-level dependent blocks in AeRes")
+
+
 def run(ctx):
     prog = ctx.prog
     mm = prog.func("AeRes.make_model")
     mod = prog.modules[mm.module]
+    r12_diagnostics(ctx, prog)
+    r13_centre(ctx, prog)
     # ---------------------------------------------------------------- R1
     ctx.rule("C14-R1", "units, width kinds and index origin at the "
              "sky2pix_ellipse and elliptical_gaussian calls of make_model")
